@@ -833,9 +833,11 @@ static int _parse_inline(qaconf_t *qaconf, FILE *fp, uint8_t flags,
                         deftype = 0;
 
                     int j;
-                    for (j = 1; j < cbdata->argc && j <= MAX_TYPECHECK; j++) {
+                    for (j = 1; j < cbdata->argc; j++) {
                         int argtype;
-                        if (option->take & (QAC_A1_INT << (j - 1)))
+                        if (j > MAX_TYPECHECK)
+                            argtype = deftype;  // no individual flag
+                        else if (option->take & (QAC_A1_INT << (j - 1)))
                             argtype = 1;
                         else if (option->take & (QAC_A1_FLOAT << (j - 1)))
                             argtype = 2;
